@@ -113,6 +113,12 @@ func init() {
 	// bech32 rendering of addresses: only used for logs / lookups answered by model keepers
 	models["(github.com/cosmos/cosmos-sdk/types.AccAddress).String"] = strOpaque("accaddr")
 	models["(github.com/cosmos/cosmos-sdk/types.ValAddress).String"] = strOpaque("valaddr")
+	// decimal / integer / coin renderings: only flow to events and log attributes
+	for _, n := range []string{"(cosmossdk.io/math.LegacyDec).String", "(cosmossdk.io/math.Int).String", "(cosmossdk.io/math.Uint).String",
+		"(github.com/cosmos/cosmos-sdk/types.Coin).String", "(github.com/cosmos/cosmos-sdk/types.Coins).String",
+		"(github.com/cosmos/cosmos-sdk/types.DecCoin).String", "(github.com/cosmos/cosmos-sdk/types.DecCoins).String"} {
+		models[n] = strOpaque("num")
+	}
 	// utils.NextMonth: same day next month, day-of-month clipped to 28: between 28 and 31 days later (contract)
 	models["github.com/lavanet/lava/v5/utils.NextMonth"] = func(ex *Exec, fn *ssa.Function, args []Value) Value {
 		c := ex.ctx
